@@ -174,6 +174,26 @@ void EGLPNUM_TYPENAME_ILLprice_init_pricing_info (
 	EGLPNUM_TYPENAME_ILLheap_init (&(pinf->h));
 	EGLPNUM_TYPENAME_EGlpNumZero (pinf->htrigger);
 	pinf->hineff = 0;
+	pinf->norms_nrows = -1;
+	pinf->norms_ncols = -1;
+}
+
+/* norm arrays kept from an earlier solve can only be reused while the problem
+ * has the dimensions they were built for */
+static void sync_norm_dimensions (
+	EGLPNUM_TYPENAME_lpinfo * const lp,
+	EGLPNUM_TYPENAME_price_info * const pinf)
+{
+	if (pinf->norms_nrows == lp->nrows && pinf->norms_ncols == lp->ncols)
+		return;
+	EGLPNUM_TYPENAME_EGlpNumFreeArray (pinf->pdinfo.norms);
+	ILL_IFFREE(pinf->pdinfo.refframe);
+	EGLPNUM_TYPENAME_EGlpNumFreeArray (pinf->psinfo.norms);
+	EGLPNUM_TYPENAME_EGlpNumFreeArray (pinf->ddinfo.norms);
+	ILL_IFFREE(pinf->ddinfo.refframe);
+	EGLPNUM_TYPENAME_EGlpNumFreeArray (pinf->dsinfo.norms);
+	pinf->norms_nrows = lp->nrows;
+	pinf->norms_ncols = lp->ncols;
 }
 
 void EGLPNUM_TYPENAME_ILLprice_free_pricing_info (
@@ -202,6 +222,7 @@ int EGLPNUM_TYPENAME_ILLprice_build_pricing_info (
 	int p_price = -1;
 	int d_price = -1;
 
+	sync_norm_dimensions (lp, pinf);
 	switch (phase)
 	{
 	case PRIMAL_PHASEI:
@@ -1463,6 +1484,7 @@ int EGLPNUM_TYPENAME_ILLprice_get_rownorms (
 	int rval = 0;
 	int i;
 
+	sync_norm_dimensions (lp, pinf);
 	if (pinf->dsinfo.norms == NULL)
 	{
 		rval = EGLPNUM_TYPENAME_ILLprice_build_dsteep_norms (lp, &(pinf->dsinfo));
@@ -1486,6 +1508,7 @@ int EGLPNUM_TYPENAME_ILLprice_get_colnorms (
 	int rval = 0;
 	int i, j;
 
+	sync_norm_dimensions (lp, pinf);
 	if (pinf->psinfo.norms == NULL)
 	{
 		rval = EGLPNUM_TYPENAME_ILLprice_build_psteep_norms (lp, &(pinf->psinfo));
@@ -1577,6 +1600,7 @@ int EGLPNUM_TYPENAME_ILLprice_load_rownorms (
 	int i;
 	int rval = 0;
 
+	sync_norm_dimensions (lp, pinf);
 	EGLPNUM_TYPENAME_EGlpNumFreeArray (pinf->dsinfo.norms);
 	pinf->dsinfo.norms = EGLPNUM_TYPENAME_EGlpNumAllocArray (lp->nrows);
 
@@ -1598,6 +1622,7 @@ int EGLPNUM_TYPENAME_ILLprice_load_colnorms (
 	int j;
 	int rval = 0;
 
+	sync_norm_dimensions (lp, pinf);
 	EGLPNUM_TYPENAME_EGlpNumFreeArray (pinf->psinfo.norms);
 	pinf->psinfo.norms = EGLPNUM_TYPENAME_EGlpNumAllocArray (lp->nnbasic);
 
